@@ -15,7 +15,7 @@ import time
 
 ROOT = os.path.dirname(os.path.dirname(os.path.abspath(__file__)))
 PY = os.path.join(ROOT, ".venv", "bin", "python")
-REPO_SRC = "/repo/src"
+REPO_SRC = os.environ.get("VF_REPO_SRC", "/repo/src")  # override only for seeded-change trials in scratch worktrees
 
 
 def _env():
@@ -202,7 +202,7 @@ def _run(args, mod, prop, tier, seed, obs, known, workdir, t0):
     results = schedule(obs, args.jobs, workdir)
 
     violations, known_hits, inconclusive, confirmed, replayed = [], [], [], [], 0
-    rdir = os.path.join(ROOT, "replays", prop)
+    rdir = os.path.join(os.environ.get("VF_REPLAY_DIR") or os.path.join(ROOT, "replays"), prop)
     for o in obs:
         r = results[o.oid]
         if r["verdict"] == "REFUTED":
